@@ -1,0 +1,228 @@
+//! Verification hooks, compiled only with the cargo feature `verif` (off by default).
+//!
+//! Everything here is thread-local: one parse / lint / interpreter run per thread, so the
+//! monitor state can never race with the state it shadows. While nothing is armed the hooks
+//! only bump counters; they never change what rrss computes.
+//!
+//! * H1 `pre`          unsafe-precondition monitor (counts reached / violated per site; with the
+//!                     trap armed a violated precondition panics *before* the unchecked operation)
+//! * H2 `dict_order`   raw hash-map iteration order of dictionary keys seen by join / display
+//! * H3 `stmt`         statement-boundary events of the interpreter + logical-step fuel
+//! * H4 `lex_tick`     logical clock of the lexer + fuel
+
+use std::cell::{Cell, RefCell};
+
+pub const FUEL_PANIC: &str = "RRSS-VERIF fuel exhausted";
+pub const PRE_PANIC: &str = "RRSS-VERIF precondition violated";
+
+#[derive(Clone, Copy, Debug, PartialEq, Eq)]
+pub enum Phase {
+    Before,
+    After,
+}
+
+/// Control-flow state of the interpreter as seen at a statement boundary.
+#[derive(Clone, Copy, Debug, PartialEq, Eq)]
+pub enum Flow {
+    Normal,
+    Breaking,
+    Continuing,
+    Returning,
+}
+
+#[derive(Clone, Copy, Debug, PartialEq, Eq)]
+pub struct StmtEvent {
+    pub seq: u64,
+    pub phase: Phase,
+    pub scope_depth: usize,
+    pub flow: Flow,
+}
+
+#[derive(Clone, Debug, Default, PartialEq, Eq)]
+pub struct Site {
+    pub name: &'static str,
+    pub reached: u64,
+    pub violated: u64,
+}
+
+thread_local! {
+    static TRAP: Cell<bool> = Cell::new(false);
+    static SITES: RefCell<Vec<Site>> = RefCell::new(Vec::new());
+    static SEQ: Cell<u64> = Cell::new(0);
+
+    static LEX_FUEL: Cell<u64> = Cell::new(u64::MAX);
+    static LEX_TICKS: Cell<u64> = Cell::new(0);
+
+    static STMT_FUEL: Cell<u64> = Cell::new(u64::MAX);
+    static STMT_COUNT: Cell<u64> = Cell::new(0);
+    static STMT_LOG: RefCell<Option<Vec<StmtEvent>>> = RefCell::new(None);
+
+    static DICT_LOG: RefCell<Option<Vec<(&'static str, Vec<String>)>>> = RefCell::new(None);
+}
+
+/// One monotonic sequence shared by the hook events and the harness's own recorders.
+pub fn next_seq() -> u64 {
+    SEQ.with(|s| {
+        let v = s.get();
+        s.set(v + 1);
+        v
+    })
+}
+
+pub fn reset_seq() {
+    SEQ.with(|s| s.set(0));
+}
+
+// ---------------------------------------------------------------- H1
+
+pub fn set_trap(on: bool) {
+    TRAP.with(|t| t.set(on));
+}
+
+pub fn pre(site: &'static str, holds: bool) {
+    SITES.with(|sites| {
+        let mut sites = sites.borrow_mut();
+        let idx = match sites.iter().position(|s| s.name == site) {
+            Some(i) => i,
+            None => {
+                sites.push(Site {
+                    name: site,
+                    reached: 0,
+                    violated: 0,
+                });
+                sites.len() - 1
+            }
+        };
+        sites[idx].reached += 1;
+        if !holds {
+            sites[idx].violated += 1;
+        }
+    });
+    if !holds && TRAP.with(|t| t.get()) {
+        panic!("{} at {}", PRE_PANIC, site);
+    }
+}
+
+/// Returns and clears the per-site counters.
+pub fn take_sites() -> Vec<Site> {
+    SITES.with(|s| std::mem::take(&mut *s.borrow_mut()))
+}
+
+// ---------------------------------------------------------------- H2
+
+pub fn arm_dict_log(on: bool) {
+    DICT_LOG.with(|l| *l.borrow_mut() = if on { Some(Vec::new()) } else { None });
+}
+
+pub fn dict_order<I: Iterator<Item = String>>(site: &'static str, keys: impl FnOnce() -> I) {
+    DICT_LOG.with(|l| {
+        if let Some(log) = l.borrow_mut().as_mut() {
+            let keys: Vec<String> = keys().collect();
+            if keys.len() >= 2 {
+                log.push((site, keys));
+            }
+        }
+    });
+}
+
+pub fn take_dict_log() -> Vec<(&'static str, Vec<String>)> {
+    DICT_LOG.with(|l| {
+        l.borrow_mut()
+            .as_mut()
+            .map(std::mem::take)
+            .unwrap_or_default()
+    })
+}
+
+// ---------------------------------------------------------------- H3
+
+/// `fuel` = number of statements the interpreter may start (`u64::MAX` disarms);
+/// `log` = record every boundary event.
+pub fn arm_stmt(fuel: u64, log: bool) {
+    STMT_FUEL.with(|f| f.set(fuel));
+    STMT_COUNT.with(|c| c.set(0));
+    STMT_LOG.with(|l| *l.borrow_mut() = if log { Some(Vec::new()) } else { None });
+}
+
+pub fn stmt(phase: Phase, scope_depth: usize, flow: Flow) {
+    if phase == Phase::Before {
+        STMT_COUNT.with(|c| c.set(c.get() + 1));
+        let exhausted = STMT_FUEL.with(|f| {
+            let v = f.get();
+            if v == u64::MAX {
+                false
+            } else if v == 0 {
+                true
+            } else {
+                f.set(v - 1);
+                false
+            }
+        });
+        if exhausted {
+            panic!("{} (statements)", FUEL_PANIC);
+        }
+    }
+    STMT_LOG.with(|l| {
+        if let Some(log) = l.borrow_mut().as_mut() {
+            log.push(StmtEvent {
+                seq: next_seq(),
+                phase,
+                scope_depth,
+                flow,
+            });
+        }
+    });
+}
+
+pub fn stmt_count() -> u64 {
+    STMT_COUNT.with(|c| c.get())
+}
+
+pub fn take_stmt_log() -> Vec<StmtEvent> {
+    STMT_LOG.with(|l| {
+        l.borrow_mut()
+            .as_mut()
+            .map(std::mem::take)
+            .unwrap_or_default()
+    })
+}
+
+// ---------------------------------------------------------------- H4
+
+/// `fuel` = number of lexer steps allowed (`u64::MAX` disarms). Resets the tick counter.
+pub fn arm_lex(fuel: u64) {
+    LEX_FUEL.with(|f| f.set(fuel));
+    LEX_TICKS.with(|t| t.set(0));
+}
+
+pub fn lex_tick() {
+    LEX_TICKS.with(|t| t.set(t.get() + 1));
+    let exhausted = LEX_FUEL.with(|f| {
+        let v = f.get();
+        if v == u64::MAX {
+            false
+        } else if v == 0 {
+            true
+        } else {
+            f.set(v - 1);
+            false
+        }
+    });
+    if exhausted {
+        panic!("{} (lexer steps)", FUEL_PANIC);
+    }
+}
+
+pub fn lex_ticks() -> u64 {
+    LEX_TICKS.with(|t| t.get())
+}
+
+/// Disarm everything and clear all logs (call between cases).
+pub fn reset() {
+    set_trap(false);
+    take_sites();
+    arm_dict_log(false);
+    arm_stmt(u64::MAX, false);
+    arm_lex(u64::MAX);
+    reset_seq();
+}
